@@ -21,7 +21,7 @@ from .runner import HarnessError
 
 EPS = 1e-13      # a branch is pruned when its path mass (relative to the explored prefix) falls below this
 DELAYS = (0.5, 0.25, 0.75, 1.0, 0.125, 0.375, 1.5, 0.625)
-TINY_RATE = 1e-9
+TINY_RATE = 1e-12     # below this a rate is roundoff residue of O(1) rates, not a rate (the checks generate genuine rates down to 1e-11)
 
 
 class HarnessUnsupported(HarnessError):
